@@ -259,7 +259,7 @@ def case_meta(case):
             continue   # set-up adds devices to this model (find_devices): the device list is not fixed
         d = mdl.__dict__
         roles = [rn for rn in ROLE if rn in d and plain_num(d[rn])]
-        cand = {pn: {'kinds': kinds_of(p), 'tc': bool(tc_states(mdl, p)), 'role': ROLE.get(pn, 0),
+        cand = {pn: {'kinds': kinds_of(p), 'tc': bool(tc_states(mdl, p)), 'tcn': len(tc_states(mdl, p)), 'role': ROLE.get(pn, 0),
                      'v': [float(x) for x in p.v]}
                 for pn, p in mdl.num_params.items()
                 if plain_num(p) and isinstance(p.v, list) and all(isnum(x) for x in p.v)}
@@ -271,7 +271,13 @@ def case_meta(case):
     return out
 
 
-def gen_spec(rng, case, want=None):
+def shared_tc_models(case):
+    """models of the case with a parameter that is the time constant of two or more states"""
+    meta = case_meta(case)
+    return sorted(m for m in meta if any(p.get('tcn', 0) >= 2 for p in meta[m]['params'].values()))
+
+
+def gen_spec(rng, case, want=None, shared_tc=False):
     meta = case_meta(case)
     names = sorted(m for m in meta if meta[m]['params'])
     good = [m for m in names if any(p['kinds'] or p['tc'] for p in meta[m]['params'].values())]
@@ -287,6 +293,11 @@ def gen_spec(rng, case, want=None):
     tracked = list(mm['roles'])
     tracked += rng.sample(flagged, min(len(flagged), rng.randint(1, 3)))
     tracked += [p for p in rng.sample(tcs, min(len(tcs), rng.randint(1, 2))) if p not in tracked]
+    shared = [p for p in tcs if ps[p].get('tcn', 0) >= 2]      # one parameter, several states
+    if shared and (shared_tc or rng.random() < 0.5):
+        q = rng.choice(shared)
+        if q not in tracked:
+            tracked.append(q)
     if plain and (rng.random() < 0.4 or not tracked):
         tracked.append(rng.choice(plain))
     if not tracked:
@@ -296,7 +307,9 @@ def gen_spec(rng, case, want=None):
         # base parameters are altered less often; after TDS initialisation time constants are preferred
         pool = [p for p in tracked if p not in mm['roles']] or tracked
         tcp = [p for p in tracked if ps[p]['tc']]
-        if phase == 'tds' and tcp and rng.random() < 0.6:
+        if shared_tc and phase == 'tds':
+            tcp = [p for p in tcp if ps[p].get('tcn', 0) >= 2] or tcp
+        if phase == 'tds' and tcp and (shared_tc or rng.random() < 0.6):
             return rng.choice(tcp), rng.randrange(mm['n'])
         p = rng.choice(tracked) if rng.random() < 0.2 else rng.choice(pool)
         return p, rng.randrange(mm['n'])
@@ -344,7 +357,7 @@ def gen_spec(rng, case, want=None):
                 ops.append(edit('setup'))
             if rd == rounds - 1:
                 ops.append({'op': 'P'})
-    if rng.random() < 0.75:
+    if shared_tc or rng.random() < 0.75:
         ops.append({'op': 'T'})
         for _ in range(rng.choice([1, 2, 3, 4])):
             ops.append(edit('tds'))
@@ -708,6 +721,12 @@ def ops_stream(ctx, n):
     for k in range(n):
         case = CASES[k % len(CASES)]
         specs.append(gen_spec(ctx.rng, case))
+    # directed: a time constant shared by several states (REGCA1.Tg, REPCA1.Tfltr, ...) altered after TDS initialisation
+    for case in CASES:
+        for m in shared_tc_models(case):
+            for _ in range(ctx.n(1, 4)):
+                specs.append(gen_spec(ctx.rng, case, want=m, shared_tc=True))
+                ctx.count('specs_shared_time_constant')
     check_specs(ctx, specs)
 
 
